@@ -39,10 +39,13 @@ def build():
 
 def install():
     """must be called before `import tensordict`"""
+    if "tensordict._C" in sys.modules and getattr(sys.modules["tensordict._C"], "__verif_rebuilt__", False):
+        return sys.modules["tensordict._C"].__file__
     assert "tensordict" not in sys.modules
     so = build()
     spec = importlib.util.spec_from_file_location("tensordict._C", so)
     mod = importlib.util.module_from_spec(spec)
     spec.loader.exec_module(mod)
+    mod.__verif_rebuilt__ = True
     sys.modules["tensordict._C"] = mod
     return so
